@@ -19,6 +19,9 @@ def check(model, R, tier):
     RC.check_geom(model, R, 'C06', funcs, declare=False)
     check_layer_geom(model, R)
     check_pad(model, R)
+    from sa.rules_defn import check_defn
+    check_defn(model, R, 'C06', ['sigmoid', 'softmax', 'log_softmax', 'relu', 'selu', 'mse_loss', 'bce_loss', 'bce_with_logits_loss', 'cross_entropy_loss'],
+               'per-element values of activations and losses')
     check_bn_form(model, R)
     check_enum(model, R)
     check_plumb(model, R)
